@@ -355,7 +355,7 @@ class HObj(object):
 
 class Event(object):
     __slots__ = ('kind', 'target', 'name', 'args', 'pc', 'loops', 'node',
-                 'stack')
+                 'stack', 'tries')
 
     def __init__(self, kind, target, name, args, pc, loops, node, stack):
         self.kind = kind      # mutate | setattr | setitem | mcall | alloc |
@@ -367,6 +367,7 @@ class Event(object):
         self.loops = loops
         self.node = node
         self.stack = stack
+        self.tries = ()
 
     def __repr__(self):
         return 'Ev(%s %r .%s %r)' % (self.kind, self.target, self.name,
